@@ -208,7 +208,7 @@ fn code_blob(which: u64) -> &'static [u8] {
     &blobs[(which as usize) % blobs.len()]
 }
 
-pub const INPUT_CLASSES: &[&str] = &["empty", "const", "periodic", "random", "mixed", "text", "code", "counter", "incomp_then_comp", "far_repeat", "zero", "lowent"];
+pub const INPUT_CLASSES: &[&str] = &["empty", "const", "periodic", "random", "mixed", "text", "code", "counter", "incomp_then_comp", "far_repeat", "zero", "lowent", "copies"];
 
 impl InputSpec {
     pub fn new(class: &str, len: usize, seed: u64) -> Self {
@@ -238,6 +238,25 @@ impl InputSpec {
                 let k = (self.p1.max(2)).min(16);
                 for b in out.iter_mut() {
                     *b = b'a' + rng.below(k) as u8;
+                }
+            }
+            "copies" => {
+                // short matches everywhere (small alphabet), plus occasional long copies of
+                // earlier material: keeps the optimal parser busy over its whole look-ahead and
+                // then meets a match much longer than nice_len
+                let k = (self.p1.max(2)).min(16);
+                for b in out.iter_mut() {
+                    *b = b'a' + rng.below(k) as u8;
+                }
+                let gap = (self.p2.max(200)) as usize;
+                let mut i = gap;
+                while i + 500 < n {
+                    let len = rng.urange(66, 420);
+                    let from = rng.urange(0, i - 1);
+                    for j in 0..len {
+                        out[i + j] = out[from + (j % (i - from))];
+                    }
+                    i += len + rng.urange(gap / 2, gap * 2);
                 }
             }
             "counter" => {
@@ -328,12 +347,16 @@ pub fn biased_len(rng: &mut Rng, max: usize, anchors: &[usize]) -> usize {
 }
 
 pub fn random_input(rng: &mut Rng, len: usize, dict: u32) -> InputSpec {
-    let class = *rng.pick(&["const", "periodic", "random", "mixed", "text", "code", "counter", "incomp_then_comp", "far_repeat", "zero", "lowent", "mixed", "text", "far_repeat"]);
+    let class = *rng.pick(&["const", "periodic", "random", "mixed", "text", "code", "counter", "incomp_then_comp", "far_repeat", "zero", "lowent", "mixed", "text", "far_repeat", "copies", "copies"]);
     let mut s = InputSpec::new(class, len, rng.next_u64());
     match class {
         "const" => s.p1 = rng.below(256),
         "periodic" => s.p1 = *rng.pick(&[1u64, 2, 3, 4, 7, 13, 64, 255, 256, 257, 1000]),
         "lowent" => s.p1 = rng.range(2, 16),
+        "copies" => {
+            s.p1 = rng.range(2, 8);
+            s.p2 = *rng.pick(&[300u64, 1000, 4200, 6000]);
+        }
         "mixed" => s.p1 = *rng.pick(&[64u64, 300, 3000, 40000]),
         "text" => s.p1 = rng.below(11356),
         "code" => {
